@@ -201,7 +201,8 @@ def accept(F, rep, rule="ACCEPT"):
                 handlers[last(vp)] = arm
     rep.floor(rule, "constraint handlers", len(handlers), 17)
     expect_single = {
-        "Neg": ({"Unknown", "Int", "Float"}, "err"),
+        # unary minus: numbers outright; tuples element-wise (C19); an Unknown operand keeps the constraint
+        "Neg": ({"Int", "Float"}, "err"),
         "Num": ({"Unknown", "Float", "Int"}, "err"),
     }
     for cname, (oks, dflt) in expect_single.items():
@@ -209,7 +210,29 @@ def accept(F, rep, rule="ACCEPT"):
         if arm is None:
             rep.anchor_missing("check_constraints handler for Constraint::" + cname)
             continue
-        got, default = single_accept(arm["body"])
+        hbody = arm["body"]
+        if cname == "Neg":
+            # the handler is TypeChecker::neg (recursive over tuple elements)
+            fneg = F.fns.get(TC + "neg")
+            called = any(callee(c) == TC + "neg" for c in nodes(arm["body"], "MethodCall"))
+            if fneg is None or not called:
+                rep.anchor_missing("TypeChecker::neg called by the Constraint::Neg handler")
+                continue
+            rep.analysed(fneg)
+            hbody = fn_body(fneg)
+            rec = unk = False
+            for m in nodes(hbody, "Match"):
+                for a2, alt, vp in arm_alternatives(m):
+                    if vp and last(vp) == "Tuple":
+                        rec = any(callee(c) == TC + "neg" for c in nodes(a2["body"], "MethodCall"))
+                    if vp and last(vp) == "Unknown":
+                        unk = any(callee(c) == TC + "add_constraint" and tc.constraint_name(c["args"][2]) == "Neg"
+                                  for c in nodes(a2["body"], "MethodCall"))
+                break
+            rep.ob(rule, "neg|tuple-elementwise", rec, "unary minus on a tuple checks every element (recursion in the Tuple arm)", fneg["sp"])
+            rep.ob("DEFER-RECORDED", "neg|unknown-arm", unk,
+                   "an operand (or tuple element) whose type is still unknown keeps Constraint::Neg until it is known", fneg["sp"])
+        got, default = single_accept(hbody)
         rep.ob(rule, "check_constraints|%s" % cname, got == oks and default == dflt,
                "Constraint::%s accepts %s, everything else: %s (expected %s / %s)" % (cname, sorted(got), default, sorted(oks), dflt),
                line_of(arm))
